@@ -8,7 +8,7 @@
 (*   act    any other API call; carries the transceiver list                  *)
 EXTENDS SdpOps, TraceKit
 
-VARIABLES pos, viol, cnt, prev, used, trMid, appNeg, orig
+VARIABLES pos, viol, cnt, prev, used, trMid, appNeg, orig, sawTwice
 
 Who == {"A", "B"}
 Unified(e) == e.cfg # "planb"
@@ -83,9 +83,11 @@ Preds(e) ==
    P("C09", "NoMidReuse", desc /\ d.parses /\ Unified(e), NoMidReuse(cur, prev[e.who], used[e.who])),
    \* ---- C10
    \* the signature says whether the description answers an offer that lists one codec (name, clock rate,
-   \* channels) under two payload types: pion then answers with one payload type listed twice (recorded)
+   \* channels) under two payload types: pion then answers with one payload type listed twice (recorded), and
+   \* so do the descriptions the endpoint generates afterwards (its negotiated codecs now hold the codec twice)
    PD("C10", "PayloadsUnique", desc /\ d.parses, AllMedia(d, PayloadsUnique),
-      IF ans /\ OfferListsCodecTwice(o) THEN "offer-lists-a-codec-twice" ELSE "plain"),
+      IF ans /\ OfferListsCodecTwice(o) THEN "offer-lists-a-codec-twice"
+      ELSE IF sawTwice[e.who] THEN "after-an-offer-that-lists-a-codec-twice" ELSE "plain"),
    P("C10", "AttrsReferToListed", desc /\ d.parses, AllMedia(d, AttrsReferToListed)),
    P("C10", "AptListed", desc /\ d.parses, AllMedia(d, AptListed)),
    P("C10", "ExtmapOK", desc /\ d.parses, AllMedia(d, ExtmapOK)),
@@ -118,6 +120,7 @@ Preds(e) ==
 Init == /\ pos = 1 /\ viol = {} /\ cnt = EmptyCount
         /\ prev = [w \in Who |-> <<>>] /\ used = [w \in Who |-> {}] /\ trMid = {}
         /\ appNeg = [w \in Who |-> FALSE] /\ orig = [w \in Who |-> <<>>]
+        /\ sawTwice = [w \in Who |-> FALSE]
 
 Step ==
   /\ pos <= Len(Trace)
@@ -125,6 +128,7 @@ Step ==
        IF e.ev = "reset"
        THEN /\ prev' = [w \in Who |-> <<>>] /\ used' = [w \in Who |-> {}] /\ trMid' = {}
             /\ appNeg' = [w \in Who |-> FALSE] /\ orig' = [w \in Who |-> <<>>]
+            /\ sawTwice' = [w \in Who |-> FALSE]
             /\ UNCHANGED <<viol, cnt>>
        ELSE LET ps == Preds(e) IN
             /\ viol' = Merge(viol, Failures(ps, e, pos))
@@ -134,12 +138,14 @@ Step ==
                     /\ used' = [used EXCEPT ![e.who] = @ \cup Range(e.mids)]
                     /\ appNeg' = [appNeg EXCEPT ![e.who] = @ \/ e.hasApp]
                ELSE UNCHANGED <<prev, used, appNeg>>
+            /\ sawTwice' = IF e.ev = "desc" /\ e.ok /\ e.op = "CreateAnswer" /\ e.offer.parses /\ OfferListsCodecTwice(e.offer)
+                           THEN [sawTwice EXCEPT ![e.who] = TRUE] ELSE sawTwice
             /\ orig' = IF e.ev = "desc" /\ e.ok /\ e.d.parses THEN [orig EXCEPT ![e.who] = <<e.d.sessId, e.d.sessVer>>] ELSE orig
             /\ trMid' = trMid \cup {<<e.who, e.trs[k].id, e.trs[k].mid>> :
                                       k \in {j \in 1..Len(e.trs) : e.trs[j].mid # ""}}
   /\ pos' = pos + 1
 
-Done == pos = Len(Trace) + 1 /\ UNCHANGED <<pos, viol, cnt, prev, used, trMid, appNeg, orig>>
+Done == pos = Len(Trace) + 1 /\ UNCHANGED <<pos, viol, cnt, prev, used, trMid, appNeg, orig, sawTwice>>
 Next == Step \/ Done
 Rep  == Report(pos, viol, cnt)
 =============================================================================
